@@ -194,6 +194,18 @@ impl Recv {
                     }
                 };
 
+                // Several content-length fields are only acceptable if they
+                // all carry the same value.
+                let all_agree = frame
+                    .fields()
+                    .get_all(header::CONTENT_LENGTH)
+                    .iter()
+                    .all(|v| frame::parse_u64(v.as_bytes()) == Ok(content_length));
+                if !all_agree {
+                    proto_err!(stream: "conflicting content-length fields; stream={:?}", stream.id);
+                    return Err(Error::library_reset(stream.id, Reason::PROTOCOL_ERROR).into());
+                }
+
                 stream.content_length = ContentLength::Remaining(content_length);
                 // END_STREAM on headers frame with non-zero content-length is malformed.
                 // https://datatracker.ietf.org/doc/html/rfc9113#section-8.1.1
